@@ -129,11 +129,14 @@ def targets(tier):
 
 
 def gen_points(rng):
-    fam = str(rng.choice(["continuous", "continuous", "lattice", "duplicates", "constcol", "adjacent", "magnitude"]))
+    fam = str(rng.choice(["continuous", "continuous", "lattice", "duplicates", "constcol", "adjacent", "magnitude", "decimal"]))
     d = int(rng.integers(1, 6))
     n = int(rng.integers(2, 160))
     if fam == "continuous":
         X = rng.normal(0, 1, size=(n, d)) * rng.choice([1, 10, 100], size=d)
+    elif fam == "decimal":
+        # readings rounded to one or two decimals, centred near zero: midpoints and points are inexact in binary and often coincide
+        X = np.round(rng.normal(0, float(rng.choice([0.5, 2.0, 20.0])), size=(n, d)), int(rng.choice([1, 1, 2])))
     elif fam == "lattice":
         X = rng.integers(0, int(rng.choice([2, 4, 10, 30])), size=(n, d)).astype(float)
     elif fam == "duplicates":
@@ -339,6 +342,8 @@ def run_case(case, ctx):
             bdt = "uint8"
             lo_, hi_ = X.min(axis=0), X.max(axis=0)
             X = np.round((X - lo_) / (hi_ - lo_ + 1e-12) * 255)
+        if bdt == "float32" if r < 0.26 else False:
+            fills = [(X.copy(), "upcast", True)] + fills
         if r < 0.26:
             fills = [(Y if len(Y) == 0 or k_ % 2 else np.ascontiguousarray(X[rng.integers(0, n, size=len(Y))] + rng.normal(0, 0.7, size=(len(Y), d))), t_, r_)
                      for k_, (Y, t_, r_) in enumerate(fills)]
